@@ -18,13 +18,25 @@ from __future__ import annotations
 import builtins
 import os as _real_os
 import threading
+import time
 
 from vlib.runner import HarnessError
 
 WATCHDOG_S = float(_real_os.environ.get("C29_WATCHDOG_S", "30"))
 MAX_OPEN_ATTEMPTS = 64      # per run; far above (#runs + #foreign files + 1)
 
+MAX_WINDOWS = 10            # watchdog windows when busy / overloaded
+
 _ACTIVE = None              # the Scheduler of the case being executed
+
+
+def _thread_cpu(thread):
+    """CPU seconds consumed by a thread (0.0 when not available)."""
+    try:
+        clk = time.pthread_getcpuclockid(thread.ident)
+        return time.clock_gettime(clk)
+    except (AttributeError, OSError, TypeError, ValueError):
+        return 0.0
 
 
 class Runaway(BaseException):
@@ -94,7 +106,23 @@ class Scheduler:
 
     # ---- harness side ------------------------------------------------
     def _wait(self, run):
-        if not run.arrived.wait(WATCHDOG_S):
+        """Block until the run parks or ends.  Watchdog: WATCHDOG_S seconds;
+        the window is re-armed (at most MAX_WINDOWS times) only while the run
+        thread is demonstrably computing (its CPU clock advanced) or the
+        machine is grossly overloaded, so a deadlock is still reported."""
+        for _ in range(MAX_WINDOWS):
+            cpu0 = _thread_cpu(run.thread)
+            if run.arrived.wait(WATCHDOG_S):
+                return
+            busy = _thread_cpu(run.thread) - cpu0 > 0.05 * WATCHDOG_S
+            try:
+                overload = (_real_os.getloadavg()[0] >
+                            2 * (_real_os.cpu_count() or 1))
+            except OSError:
+                overload = False
+            if not (busy or overload):
+                break
+        if not run.arrived.is_set():
             raise HarnessError(
                 f"C29 scheduler watchdog: run {run.id} did not reach a yield "
                 f"point or finish within {WATCHDOG_S} s "
